@@ -84,7 +84,7 @@ RingOK == RB!FRepOK(s.f) /\ RB!FLen(s.f) = 2 * depth
 IdxLaw == s.idx = (IF Len(hist) <= depth THEN Len(hist) ELSE depth)
 
 ---------------------------------------------------------------------------
-(* stimuli: maximal histories; frame values are small integers n (i16: n, floats: n / 2^15, exact) *)
+(* stimuli: maximal histories; frame values are small integers n (i16: n, floats: n / 2^15, exact, i32: see Fmts) *)
 HistSet(d) == { h \in [1..(3 * d + 2) -> {"p", "r"}] : Cardinality({ i \in 1..(3 * d + 2) : h[i] = "r" }) <= MaxResets }
 PushCount(h, i) == Cardinality({ j \in 1..i : h[j] = "p" })
 Val(j, ch) == [c \in 1..ch |-> (IF j % 2 = 0 THEN 1 ELSE -1) * (256 * ((j % 7) + 1) + 64 * c)]
@@ -95,7 +95,8 @@ DirectOps(h, ch) ==
                   ELSE << [ev |-> "clear", a |-> [x |-> 0]], [ev |-> "interp", a |-> [x |-> 0]] >>
       F[i \in 0..n] == IF i = 0 THEN << [ev |-> "interp", a |-> [x |-> 0]] >> ELSE F[i - 1] \o one(i)
   IN F[n]
-Fmts == { << "f64", 1 >>, << "f32", 1 >>, << "i16", 1 >>, << "f32", 2 >> }
+\* (i32: the harness maps n to n * 2^20 + odd low bits -- near full scale, more significant bits than an f32)
+Fmts == { << "f64", 1 >>, << "f32", 1 >>, << "i16", 1 >>, << "f32", 2 >>, << "i32", 1 >>, << "i32", 2 >> }
 DirectStim == UNION { UNION { { << [ev |-> "reset", comp |-> "sinc", cfg |-> [depth |-> d, fmt |-> fc[1], ch |-> fc[2]]] >> \o DirectOps(h, fc[2])
                                 : h \in HistSet(d) } : fc \in Fmts } : d \in 1..MaxDepth }
 ConvStim == UNION { UNION { { << [ev |-> "reset", comp |-> "sinc_conv",
